@@ -126,6 +126,8 @@ for _k, _v in EXTRA7.items():
 EXTRA["C11"] = " Every lattice case is repeated at the exact scales 2^-30 and 2^30 (bit-identical answer after scaling back) and in f32."
 EXTRA["C16"] = " points_along_line against distance / point_at_distance_between of the same metric space; a Neptune-sized HaversineMeasure."
 
+EXTRA["C11"] += " Three almost-T-junction configurations with non-dyadic coordinates as ulp-window bases."
+
 NOT_YET = "check not built yet in this round (planned: bounded exhaustive exploration, see DESIGN.md §4)"
 
 def main():
